@@ -3,6 +3,7 @@
 from __future__ import annotations
 
 import ast
+from fractions import Fraction
 from typing import Optional
 
 from ..absval import Closure, Interp, ItemGetter, LocalDef, Obj, Outcome, RaiseSignal, Sym, Unknown, enumerate_paths
@@ -919,6 +920,14 @@ def matcher_run_interp():
                         ps = sorted(pi) if isinstance(pi, (list, tuple)) else [pi]
                         return Sym(f"comb[{ri}|{','.join(str(x) for x in ps)}]")
             return super().call_func(f_, args, kwargs, node, self_obj=self_obj)
+
+        def binop_hook(self, op, l, r, node):
+            # a score plus / minus a margin of zero is that score
+            if isinstance(op, (ast.Add, ast.Sub)) and isinstance(l, Sym) and l.name.startswith(("score", "comb[")) and isinstance(r, (int, float, Fraction)) and not isinstance(r, bool) and r == 0:
+                return l
+            if isinstance(op, ast.Add) and isinstance(r, Sym) and r.name.startswith(("score", "comb[")) and isinstance(l, (int, float, Fraction)) and not isinstance(l, bool) and l == 0:
+                return r
+            return super().binop_hook(op, l, r, node)
 
         def compare_hook(self, op, l, r, node):
             if isinstance(l, Sym) and isinstance(r, Sym) and all(x.name.startswith(("score", "comb[")) for x in (l, r)) and isinstance(op, (ast.Lt, ast.LtE, ast.Gt, ast.GtE)):
